@@ -122,7 +122,7 @@ claim('C17',
       'the CLI entry point.',
       'Rejecting bad data while loading (exception or None) counts as reported failure; a routine run() that raises '
       'instead of returning its flag is a violation. Inputs the models document a default / regularisation for may '
-      'succeed if the result is truthful. PQ voltage-band conversion to impedance is switched off for the catalogue.',
+      'succeed if the result is truthful. The reference power balance applies the documented conversion of PQ loads to impedances outside their voltage band.',
       'exhaustive fault-catalogue enumeration x routine sequences on the implementation with single-fault injection at '
       'every solver call below K',
       'DESIGN.md#c17')
